@@ -334,3 +334,47 @@ Definition mesh_boxes (kind : nat) (verts : list pt) (idx : list nat) : list box
   | S O => mesh_strip_boxes verts idx
   | _ => mesh_tri_boxes verts idx
   end.
+
+(* ---------- exact (rational) closest point of a triangle element: scopedTri.ClosestPoint ---------- *)
+(* closestPoint := Plane().ClosestPoint(p)  =  p - nhat * (nhat.p - nhat.a)  =  p - n * ((p-a).n / n.n)  with the
+   unnormalised normal n = (b-a) x (c-a);  if PointInSide(closestPoint) (three sign tests, 26a68bd) that
+   point; else ClosestPointOnLine(closestPoint) on the edges AB, BC, CA and the one of least squared
+   distance to closestPoint (the first on ties: min == mag1, else min == mag2, else the third).
+   Model units (Go coordinate x4); exact over Q.  For a zero-area triangle n.n = 0 and Go computes NaN;
+   the theorems exclude it (0 < n.n). *)
+Definition qx (p : qpt) : Q := fst (fst p).
+Definition qy (p : qpt) : Q := snd (fst p).
+Definition qz (p : qpt) : Q := snd p.
+Definition inj (p : pt) : qpt := (zq (px p), zq (py p), zq (pz p)).
+Definition qvsub (a b : qpt) : qpt := (qx a - qx b, qy a - qy b, qz a - qz b)%Q.
+Definition qcross (a b : qpt) : qpt :=
+  (qy a * qz b - qz a * qy b, qz a * qx b - qx a * qz b, qx a * qy b - qy a * qx b)%Q.
+Definition qdot (a b : qpt) : Q := (qx a * qx b + qy a * qy b + qz a * qz b)%Q.
+Definition qdist2q (c p : qpt) : Q := qdot (qvsub c p) (qvsub c p).
+
+Definition tri_normal_q (a b c : pt) : qpt := qcross (qvsub (inj b) (inj a)) (qvsub (inj c) (inj a)).
+Definition tri_proj (a b c p : pt) : qpt :=
+  let n := tri_normal_q a b c in
+  let k := (qdot n (qvsub (inj p) (inj a)) / qdot n n)%Q in
+  (qx (inj p) - k * qx n, qy (inj p) - k * qy n, qz (inj p) - k * qz n)%Q.
+Definition tri_in_side_q (a b c : pt) (p : qpt) : bool :=
+  let a' := qvsub (inj a) p in let b' := qvsub (inj b) p in let c' := qvsub (inj c) p in
+  let u := qcross b' c' in let v := qcross c' a' in let w := qcross a' b' in
+  negb (Qltb (qdot u v) 0) && negb (Qltb (qdot u w) 0) && Qle_bool 0 (qdot v w).
+(* Line3D.ClosestPointOnLine for a rational query *)
+Definition seg_param_q (a b : pt) (p : qpt) : Q :=
+  let h := qvsub (inj b) (inj a) in (qdot (qvsub p (inj a)) h / qdot h h)%Q.
+Definition seg_closest_q (a b : pt) (p : qpt) : qpt :=
+  let t := seg_param_q a b p in
+  (seg_at (zq (px a)) (zq (px b)) t, seg_at (zq (py a)) (zq (py b)) t, seg_at (zq (pz a)) (zq (pz b)) t).
+Definition qmin2 (a b : Q) : Q := if Qltb b a then b else a.
+Definition tri_closest (a b c p : pt) : qpt :=
+  let c0 := tri_proj a b c p in
+  if tri_in_side_q a b c c0 then c0
+  else
+    let c1 := seg_closest_q a b c0 in
+    let c2 := seg_closest_q b c c0 in
+    let c3 := seg_closest_q c a c0 in
+    let m1 := qdist2q c0 c1 in let m2 := qdist2q c0 c2 in let m3 := qdist2q c0 c3 in
+    let mn := qmin2 (qmin2 m1 m2) m3 in
+    if Qeq_bool mn m1 then c1 else if Qeq_bool mn m2 then c2 else c3.
